@@ -245,4 +245,107 @@ class SelMap(Engine):
       yield case[:i] + case[i + 1:]
 
 
-ENGINES = [SelMap()]
+
+# ------------------------------------------------------------------ spellings through the gin API
+from harness import ginm            # pylint: disable=g-import-not-at-top
+from harness.props import c12       # pylint: disable=g-import-not-at-top
+
+
+class Spelling(c12.LockEngine):
+  """every unambiguous spelling of one parameter is the same key for bind / query / get_bindings /
+  get_configurable / references / finalize hooks"""
+  name = 'gin-spelling'
+
+  def budget(self, tier):
+    return 500 if tier == 'quick' else 15000
+
+  def corpus(self):
+    f = {'sel': 'pkg.mod.f', 'sig': {'args': ['a', 'b'], 'defaults': [['i', 1], ['i', 2]], 'varargs': False,
+                                     'kwonly': [], 'varkw': False}, 'allow': [], 'deny': []}
+    return [{'regs': [f], 'ops': [
+        ['bind', 'f.a', ['i', 5]], ['query', 'mod.f.a'], ['query', 'pkg.mod.f.a'], ['bindt', 's1', 'mod.f', 'a', ['i', 6]],
+        ['query', 's1/f.a'], ['getbindings', 'pkg.mod.f', True, True], ['getbindings', 's1/f', True, True],
+        ['pbind', 'mm', ['i', 3]], ['pbind', 'pkg.mod.f.b', ['ref', ['mm'], 'macro', True]],
+        ['pbind', 's1/mod.f.b', ['l', [['ref', [], 'mod.f', False], ['ref', ['s1'], 'f', False]]]],
+        ['callvia', 'mod.f', [], []], ['callvia', 's1/pkg.mod.f', [], []],
+        ['hook', ['return', [['mod.f.a', ['i', 7]]]]], ['finalize'], ['locked'], ['dumpconfig'], ['dumpcalls']]}]
+
+  def gen(self, rng, tier):
+    sels = rng.sample(['pkg.mod.f', 'pkg.g', 'other.mod.f', 'x.y.z.h', 'k', 'pkg.mod.sub.f'], rng.randint(1, 3))
+    regs = []
+    for sel in sels:
+      sg = ginm.gen_sig(rng, False, False)
+      sg['defaults'] = [['i', 0]] * len(sg['args'])
+      regs.append({'sel': sel, 'sig': sg, 'allow': [], 'deny': []})
+    ops = []
+    for _ in range(rng.randint(2, 10)):
+      c = rng.choice(regs)
+      sp = ginm.spellings(c['sel'], regs)
+      p = rng.choice(c['sig']['args'])
+      sc = rng.choice(['', '', 's1', 's1/s2'])
+      pre = sc + '/' if sc else ''
+      r = rng.random()
+      if r < 0.3:
+        v = ginm.gen_plain(rng, 1)
+        if rng.random() < 0.3:
+          c2 = rng.choice(regs)
+          v = ['l', [['ref', [], rng.choice(ginm.spellings(c2['sel'], regs)), False],
+                     ['ref', ['s1'], rng.choice(ginm.spellings(c2['sel'], regs)), False]]]
+        kind = rng.choice(['bind', 'pbind', 'bindt'])
+        s1 = rng.choice(sp)
+        ops.append([kind, pre + s1 + '.' + p, v] if kind != 'bindt' else ['bindt', sc, s1, p, v])
+      elif r < 0.55:
+        ops.append(['query', pre + rng.choice(sp) + '.' + p])
+      elif r < 0.7:
+        ops.append(['getbindings', pre + rng.choice(sp), rng.random() < 0.5, True])
+      elif r < 0.8:
+        ops.append(['callvia', pre + rng.choice(sp), [], []])
+      elif r < 0.87:
+        ops.append(['pbind', 'mm', ginm.gen_plain(rng, 0)])
+        ops.append(['pbind', pre + rng.choice(sp) + '.' + p, ['ref', ['mm'], rng.choice(['macro', 'gin.macro']), True]])
+      elif r < 0.95:
+        ops.append(['hook', ['return', [[rng.choice(sp) + '.' + p, ginm.gen_plain(rng, 0)]]]])
+      else:
+        ops.append(['finalize'])
+        ops.append(['clear', False])
+    ops += [['finalize'], ['locked'], ['dumpconfig'], ['dumpcalls']]
+    return {'regs': regs, 'ops': ops}
+
+  def impl(self, case):
+    r = super().impl(case)
+    # independent check: after every successful bind, the value is visible through every spelling
+    m = ginm.Machine()
+    regs = case['regs']
+    fails = list(r['fails'])
+    spell = {c['sel']: ginm.spellings(c['sel'], regs) for c in regs}
+    nontrivial = False
+    for op in case['ops']:
+      try:
+        m.exec_op(op)
+      except Exception:  # pylint: disable=broad-except
+        continue
+      if op[0] in ('bind', 'pbind', 'bindt') and not m.gin.config_is_locked():
+        if op[0] == 'bindt':
+          sc, sel, arg = op[1], op[2], op[3]
+        else:
+          sc, sel, arg = c12.split_key(op[1])
+        full = c12.resolve_sel(sel, regs)
+        if full not in spell or not arg:
+          continue
+        want = m.canon(m.gin.query_parameter((sc + '/' if sc else '') + full + '.' + arg))
+        if len(spell[full]) >= 2:
+          nontrivial = True
+        for s2 in spell[full]:
+          try:
+            got = m.canon(m.gin.query_parameter((sc + '/' if sc else '') + s2 + '.' + arg))
+          except Exception as e:  # pylint: disable=broad-except
+            got = 'raised ' + type(e).__name__
+          if got != want:
+            fails.append(('spelling-dependent-key', 'bound through %r; query through %r gives %r, through %r gives %r' %
+                          (sel, s2, got, full, want)))
+    r['fails'] = fails[:3]
+    r['nontrivial'] = nontrivial
+    return r
+
+
+ENGINES = [SelMap(), Spelling()]
